@@ -8,15 +8,45 @@ use sophia_inmem::graph::{FastGraph, LightGraph};
 use sophia_inmem::index::{SimpleTermIndex, TermIndex};
 use verif_harness::*;
 
-enum Store { I32(SimpleTermIndex<u32>), I16(SimpleTermIndex<u16>), FG(FastGraph), LG(LightGraph), FD(FastDataset), LD(LightDataset), SFG(sophia_inmem::graph::small::FastGraph) }
+type S6 = SimpleTermIndex<SmallIdx<6>>;
+type G9 = sophia_inmem::graph::GenericFastGraph<SimpleTermIndex<SmallIdx<9>>>;
+enum Store { S6(S6), G9(G9), I32(SimpleTermIndex<u32>), I16(SimpleTermIndex<u16>), FG(FastGraph), LG(LightGraph), FD(FastDataset), LD(LightDataset), SFG(sophia_inmem::graph::small::FastGraph) }
 impl Store {
-    fn kind(&self) -> &'static str { match self { Store::I32(_) => "SimpleTermIndex<u32>", Store::I16(_) => "SimpleTermIndex<u16>", Store::FG(_) => "FastGraph", Store::LG(_) => "LightGraph", Store::FD(_) => "FastDataset", Store::LD(_) => "LightDataset", Store::SFG(_) => "small::FastGraph" } }
-    fn clone_it(&self) -> Store { match self { Store::I32(x) => Store::I32(x.clone()), Store::I16(x) => Store::I16(x.clone()), Store::FG(x) => Store::FG(x.clone()), Store::LG(x) => Store::LG(x.clone()), Store::FD(x) => Store::FD(x.clone()), Store::LD(x) => Store::LD(x.clone()), Store::SFG(x) => Store::SFG(x.clone()) } }
-    fn audit(&self) -> Vec<bool> { match self { Store::I32(x) => x.verif_audit(), Store::I16(x) => x.verif_audit(), Store::FG(x) => x.verif_term_index().verif_audit(), Store::LG(x) => x.verif_term_index().verif_audit(), Store::FD(x) => x.verif_term_index().verif_audit(), Store::LD(x) => x.verif_term_index().verif_audit(), Store::SFG(x) => x.verif_term_index().verif_audit() } }
-    fn len(&self) -> usize { match self { Store::I32(x) => x.len(), Store::I16(x) => x.len(), Store::FG(x) => x.verif_term_index().len(), Store::LG(x) => x.verif_term_index().len(), Store::FD(x) => x.verif_term_index().len(), Store::LD(x) => x.verif_term_index().len(), Store::SFG(x) => x.verif_term_index().len() } }
-    fn term_at(&self, i: usize) -> ST { match self { Store::I32(x) => x.get_term(i as u32).into_term(), Store::I16(x) => x.get_term(i as u16).into_term(), Store::FG(x) => x.verif_term_index().get_term(i as u32).into_term(), Store::LG(x) => x.verif_term_index().get_term(i as u32).into_term(), Store::FD(x) => x.verif_term_index().get_term(i as u32).into_term(), Store::LD(x) => x.verif_term_index().get_term(i as u32).into_term(), Store::SFG(x) => x.verif_term_index().get_term(i as u16).into_term() } }
+    fn kind(&self) -> &'static str { match self { Store::S6(_) => "SimpleTermIndex<SmallIdx<6>>", Store::G9(_) => "GenericFastGraph<SimpleTermIndex<SmallIdx<9>>>", Store::I32(_) => "SimpleTermIndex<u32>", Store::I16(_) => "SimpleTermIndex<u16>", Store::FG(_) => "FastGraph", Store::LG(_) => "LightGraph", Store::FD(_) => "FastDataset", Store::LD(_) => "LightDataset", Store::SFG(_) => "small::FastGraph" } }
+    fn clone_it(&self) -> Store { match self { Store::S6(x) => Store::S6(x.clone()), Store::G9(x) => Store::G9(x.clone()), Store::I32(x) => Store::I32(x.clone()), Store::I16(x) => Store::I16(x.clone()), Store::FG(x) => Store::FG(x.clone()), Store::LG(x) => Store::LG(x.clone()), Store::FD(x) => Store::FD(x.clone()), Store::LD(x) => Store::LD(x.clone()), Store::SFG(x) => Store::SFG(x.clone()) } }
+    fn audit(&self) -> Vec<bool> { match self { Store::S6(x) => x.verif_audit(), Store::G9(x) => x.verif_term_index().verif_audit(), Store::I32(x) => x.verif_audit(), Store::I16(x) => x.verif_audit(), Store::FG(x) => x.verif_term_index().verif_audit(), Store::LG(x) => x.verif_term_index().verif_audit(), Store::FD(x) => x.verif_term_index().verif_audit(), Store::LD(x) => x.verif_term_index().verif_audit(), Store::SFG(x) => x.verif_term_index().verif_audit() } }
+    fn len(&self) -> usize { match self { Store::S6(x) => x.len(), Store::G9(x) => x.verif_term_index().len(), Store::I32(x) => x.len(), Store::I16(x) => x.len(), Store::FG(x) => x.verif_term_index().len(), Store::LG(x) => x.verif_term_index().len(), Store::FD(x) => x.verif_term_index().len(), Store::LD(x) => x.verif_term_index().len(), Store::SFG(x) => x.verif_term_index().len() } }
+    fn term_at(&self, i: usize) -> ST { match self { Store::S6(x) => x.get_term(SmallIdx(i as u8)).into_term(), Store::G9(x) => x.verif_term_index().get_term(SmallIdx(i as u8)).into_term(), Store::I32(x) => x.get_term(i as u32).into_term(), Store::I16(x) => x.get_term(i as u16).into_term(), Store::FG(x) => x.verif_term_index().get_term(i as u32).into_term(), Store::LG(x) => x.verif_term_index().get_term(i as u32).into_term(), Store::FD(x) => x.verif_term_index().get_term(i as u32).into_term(), Store::LD(x) => x.verif_term_index().get_term(i as u32).into_term(), Store::SFG(x) => x.verif_term_index().get_term(i as u16).into_term() } }
     /// insert the statement made of `ts` (3 terms, + graph name for datasets); index stores intern each term
+    /// (address, length, owned?) of every string of the keys and of the index table
+    fn strings(&self) -> (Vec<(usize, usize, bool)>, Vec<(usize, usize, bool)>) { match self { Store::S6(x) => x.verif_strings(), Store::G9(x) => x.verif_term_index().verif_strings(), Store::I32(x) => x.verif_strings(), Store::I16(x) => x.verif_strings(), Store::FG(x) => x.verif_term_index().verif_strings(), Store::LG(x) => x.verif_term_index().verif_strings(), Store::FD(x) => x.verif_term_index().verif_strings(), Store::LD(x) => x.verif_term_index().verif_strings(), Store::SFG(x) => x.verif_term_index().verif_strings() } }
+    /// get_term on an index that was never handed out (len, len+1, MAX): a safe public method, it must panic, not read out of bounds
+    fn out_of_range_reads(&self) -> Vec<String> {
+        fn probe<TI: TermIndex>(ti: &TI, idx: Vec<(String, TI::Index)>) -> Vec<String> where TI::Index: Copy {
+            let mut bad = vec![];
+            for (name, i) in idx { QUIET.with(|q| q.set(true)); let r = std::panic::catch_unwind(std::panic::AssertUnwindSafe(|| { let t: ST = ti.get_term(i).into_term(); format!("{t:?}") })); QUIET.with(|q| q.set(false)); if let Ok(t) = r { bad.push(format!("get_term({name}) returned {} instead of panicking", t.chars().take(60).collect::<String>())); } }
+            bad
+        }
+        match self {
+            Store::S6(x) => probe(x, vec![("len".into(), SmallIdx(x.len() as u8)), ("MAX".into(), SmallIdx(6))]),
+            Store::G9(x) => { let ti = x.verif_term_index(); probe(ti, vec![("len".into(), SmallIdx(ti.len() as u8)), ("MAX".into(), SmallIdx(9))]) }
+            Store::I32(x) => probe(x, vec![("len".into(), x.len() as u32), ("len+1".into(), x.len() as u32 + 1), ("MAX".into(), u32::MAX)]),
+            Store::I16(x) => probe(x, vec![("len".into(), x.len() as u16), ("MAX".into(), u16::MAX)]),
+            Store::FG(x) => { let ti = x.verif_term_index(); probe(ti, vec![("len".into(), ti.len() as u32), ("MAX".into(), u32::MAX)]) }
+            Store::LG(x) => { let ti = x.verif_term_index(); probe(ti, vec![("len".into(), ti.len() as u32), ("MAX".into(), u32::MAX)]) }
+            Store::FD(x) => { let ti = x.verif_term_index(); probe(ti, vec![("len".into(), ti.len() as u32), ("MAX".into(), u32::MAX)]) }
+            Store::LD(x) => { let ti = x.verif_term_index(); probe(ti, vec![("len".into(), ti.len() as u32), ("MAX".into(), u32::MAX)]) }
+            Store::SFG(x) => { let ti = x.verif_term_index(); probe(ti, vec![("len".into(), ti.len() as u16), ("MAX".into(), u16::MAX)]) }
+        }
+    }
     fn insert(&mut self, ts: &[ST]) -> usize { match self {
+        // capacity-limited stores: TermIndexFullError is an ordinary outcome; the terms interned before it stay interned
+        Store::S6(x) => { let mut n = 0; for t in ts { if x.ensure_index(t.borrow_term()).is_err() { break; } n += 1; } n }
+        Store::G9(x) => { let before = x.verif_term_index().len(); match x.insert(&ts[0], &ts[1], &ts[2]) { Ok(_) => 3, Err(_) => {
+            // the first (len_after - len_before) NEW terms of s, p, o were interned
+            let mut newly = x.verif_term_index().len() - before; let mut n = 0; let mut seen: Vec<&ST> = vec![];
+            for t in &ts[..3] { let known = (0..before).any(|k| Term::eq(&x.verif_term_index().get_term(SmallIdx(k as u8)), t.borrow_term())) || seen.iter().any(|u| Term::eq(*u, t.borrow_term())); if !known { if newly == 0 { break; } newly -= 1; seen.push(t); } n += 1; }
+            n } } }
         Store::I32(x) => { for t in ts { x.ensure_index(t.borrow_term()).unwrap(); } ts.len() }
         Store::I16(x) => { for t in ts { x.ensure_index(t.borrow_term()).unwrap(); } ts.len() }
         Store::FG(x) => { x.insert(&ts[0], &ts[1], &ts[2]).unwrap(); 3 } Store::LG(x) => { x.insert(&ts[0], &ts[1], &ts[2]).unwrap(); 3 } Store::SFG(x) => { x.insert(&ts[0], &ts[1], &ts[2]).unwrap(); 3 }
@@ -24,24 +54,30 @@ impl Store {
     } }
     fn remove(&mut self, ts: &[ST]) { match self {
         Store::FG(x) => { x.remove(&ts[0], &ts[1], &ts[2]).unwrap(); } Store::LG(x) => { x.remove(&ts[0], &ts[1], &ts[2]).unwrap(); } Store::SFG(x) => { x.remove(&ts[0], &ts[1], &ts[2]).unwrap(); }
+        Store::G9(x) => { x.remove(&ts[0], &ts[1], &ts[2]).unwrap(); }
         Store::FD(x) => { x.remove(&ts[0], &ts[1], &ts[2], Some(&ts[3])).unwrap(); } Store::LD(x) => { x.remove(&ts[0], &ts[1], &ts[2], Some(&ts[3])).unwrap(); } _ => {}
     } }
 }
-fn new_store(k: usize) -> Store { match k { 0 => Store::I32(Default::default()), 1 => Store::I16(Default::default()), 2 => Store::FG(Default::default()), 3 => Store::LG(Default::default()), 4 => Store::FD(Default::default()), 5 => Store::LD(Default::default()), _ => Store::SFG(Default::default()) } }
+fn new_store(k: usize) -> Store { match k { 7 => Store::S6(Default::default()), 8 => Store::G9(Default::default()), 0 => Store::I32(Default::default()), 1 => Store::I16(Default::default()), 2 => Store::FG(Default::default()), 3 => Store::LG(Default::default()), 4 => Store::FD(Default::default()), 5 => Store::LD(Default::default()), _ => Store::SFG(Default::default()) } }
 
 fn nstr(t: &ST) -> usize { use sophia_api::term::SimpleTerm::*; match t { Iri(_) | BlankNode(_) | Variable(_) => 1, LiteralDatatype(..) | LiteralLanguage(..) => 2, Triple(tr) => tr.iter().map(nstr).sum() } }
 
 #[derive(Debug, Clone)]
 enum Op { New(usize, usize), Insert(usize, Vec<u64>), Bulk(usize, u64, usize), Remove(usize, Vec<u64>), Clone(usize, usize), Drop(usize), Swap(usize, usize) }
 
+thread_local! { static QUIET: std::cell::Cell<bool> = std::cell::Cell::new(false); }
 fn main() {
     let a = parse_args();
+    let default_hook = std::panic::take_hook();
+    std::panic::set_hook(Box::new(move |info| { if !QUIET.with(|q| q.get()) { default_hook(info) } }));
     let mut sum = Summary::default();
     sum.rule = "case = history of 4..40 ops over up to 5 store slots (kinds: SimpleTermIndex<u32/u16>, Fast/Light graph and dataset, small::FastGraph): new, insert statement (terms of every kind incl. quoted triples), bulk insert of 20..300 fresh terms (table growth across reallocation thresholds), remove, clone, drop (of originals or clones), swap/move; \
 non-trivial = at least one clone whose source is later dropped or mutated while the clone stays live and non-empty; distinct = distinct printed history".into();
     let pool = small_pool();
-    let term = |id: u64, r: &mut Rng| -> ST { if id >= 1000 { iri(&format!("http://bulk.example/{id}")) } else { r.pick(&pool[(id - 1) as usize]).clone() } };
-    let tid = |t: &ST| -> u64 { if let Some(i) = t.iri() { if let Some(n) = i.as_str().strip_prefix("http://bulk.example/") { return n.parse().unwrap(); } } class_id(&pool, t.borrow_term()) };
+    // 900..=903: an IRI and a literal whose DATATYPE is that very IRI (twice): the literal's datatype string must be its own copy
+    let special = |id: u64| -> ST { match id { 900 => iri(&format!("{XSD}integer")), 901 => lit_dt("7", &format!("{XSD}integer")), 902 => iri("http://e/dt"), _ => lit_dt("x", "http://e/dt") } };
+    let term = |id: u64, r: &mut Rng| -> ST { if (900..=903).contains(&id) { special(id) } else if id >= 1000 { iri(&format!("http://bulk.example/{id}")) } else { r.pick(&pool[(id - 1) as usize]).clone() } };
+    let tid = |t: &ST| -> u64 { for id in 900..=903u64 { if Term::eq(&special(id), t.borrow_term()) { return id; } } if let Some(i) = t.iri() { if let Some(n) = i.as_str().strip_prefix("http://bulk.example/") { return n.parse().unwrap(); } } class_id(&pool, t.borrow_term()) };
     let base = Rng::new(a.seed);
     let mut cases = vec![]; let mut seen = std::collections::HashSet::new();
     let range: Vec<usize> = match a.only { Some(i) => vec![i], None => (0..a.n).collect() };
@@ -58,9 +94,9 @@ non-trivial = at least one clone whose source is later dropped or mutated while 
             let live: Vec<usize> = (0..5).filter(|i| slots[*i].is_some()).collect();
             let free: Vec<usize> = (0..5).filter(|i| slots[*i].is_none()).collect();
             let choice = r.below(12);
-            let op = if live.is_empty() || (choice == 0 && !free.is_empty()) { Op::New(*r.pick(&free), r.below(7)) }
+            let op = if live.is_empty() || (choice == 0 && !free.is_empty()) { Op::New(*r.pick(&free), r.below(9)) }
                 else { let s = *r.pick(&live); match choice {
-                    1..=4 => Op::Insert(s, (0..4).map(|_| 1 + r.below(16) as u64).collect()),
+                    1..=4 => Op::Insert(s, (0..4).map(|_| if r.chance(1, 5) { 900 + r.below(4) as u64 } else { 1 + r.below(16) as u64 }).collect()),
                     5 => { let n = r.range(20, 300); let o = Op::Bulk(s, bulk_next, n); bulk_next += n as u64; o }
                     6 => Op::Remove(s, (0..4).map(|_| 1 + r.below(16) as u64).collect()),
                     7..=8 if !free.is_empty() => Op::Clone(s, *r.pick(&free)),
@@ -93,6 +129,19 @@ non-trivial = at least one clone whose source is later dropped or mutated while 
             // oracle after every step: no live store points into memory it does not own
             for (i, s) in slots.iter().enumerate() { if let Some(s) = s { let au = s.audit(); if au.iter().any(|b| !b) && failure.is_none() {
                 failure = Some(format!("after {:?}: store #{i} ({}) holds {} of {} index entries that point outside its own key storage (would read memory it does not own)", ops, s.kind(), au.iter().filter(|b| !**b).count(), au.len())); } } }
+            // the same from the addresses themselves: every key owns its strings, the strings of two live stores never overlap,
+            // every borrowed string of an index table lies inside a key string of the same store, table and map have the same size
+            if failure.is_none() {
+                let strs: Vec<Option<(Vec<(usize, usize, bool)>, Vec<(usize, usize, bool)>)>> = slots.iter().map(|s| s.as_ref().map(|s| s.strings())).collect();
+                'outer: for (i, si) in strs.iter().enumerate() { if let Some((keys, entries)) = si {
+                    let kind = slots[i].as_ref().unwrap().kind();
+                    if let Some(k) = keys.iter().find(|k| !k.2) { failure = Some(format!("after {:?}: store #{i} ({kind}) has a key that BORROWS one of its strings ({} bytes at {:#x}) instead of owning it: a clone of the store would point into this store's memory", ops, k.1, k.0)); break 'outer; }
+                    for e in entries.iter().filter(|e| !e.2 && e.1 > 0) { if !keys.iter().any(|k| k.0 <= e.0 && e.0 + e.1 <= k.0 + k.1) { failure = Some(format!("after {:?}: store #{i} ({kind}) has an index-table entry whose string ({} bytes at {:#x}) lies in none of its own keys", ops, e.1, e.0)); break 'outer; } }
+                    for (j, sj) in strs.iter().enumerate().skip(i + 1) { if let Some((keys2, _)) = sj {
+                        if let Some(k) = keys.iter().filter(|k| k.1 > 0).find(|k| keys2.iter().any(|m| m.1 > 0 && k.0 < m.0 + m.1 && m.0 < k.0 + k.1)) { failure = Some(format!("after {:?}: stores #{i} ({kind}) and #{j} share storage: a {}-byte key string at {:#x} overlaps a key string of the other store", ops, k.1, k.0)); break 'outer; }
+                    } }
+                } }
+            }
             // and every live store still holds exactly the terms it interned, in order (a clone: those of its
             // original at the time of cloning plus its own later ones)
             if failure.is_none() { for (i, s) in slots.iter().enumerate() { if let Some(s) = s { if s.audit().iter().all(|b| *b) {
@@ -101,6 +150,7 @@ non-trivial = at least one clone whose source is later dropped or mutated while 
             } } } }
             if failure.is_some() { break; }
         }
+        if failure.is_none() { for (i, s) in slots.iter().enumerate() { if let Some(s) = s { let bad = s.out_of_range_reads(); if let Some(b) = bad.first() { failure = Some(format!("after {:?}: store #{i} ({}): {b} (TermIndex::get_term is a safe method: an index that was never handed out must panic, not read out of bounds)", ops, s.kind())); break; } } } }
         let text = format!("{ops:?}");
         if let Some(f) = &failure { sum.oracle_failures.push((idx.to_string(), f.clone())); }
         // observation (only read content when the audit says it is safe to)
